@@ -20,3 +20,19 @@ pub fn u32_circuits() -> Vec<(&'static str, &'static dyn GetBitCircuitInfo)> {
         ("identity", &circuits::u32::identity_codgen::OUTPUT_CIRCUITS),
     ]
 }
+
+use std::sync::RwLock;
+
+static CHUNK_START: RwLock<Option<fn(usize)>> = RwLock::new(None);
+
+/// Installs (or clears) a callback run by every worker thread of the multi-threaded loops
+/// before it starts its chunk; lets a harness perturb the schedule deterministically.
+pub fn set_chunk_start_hook(f: Option<fn(usize)>) {
+    *CHUNK_START.write().unwrap() = f;
+}
+
+pub(crate) fn chunk_start(thread_idx: usize) {
+    if let Some(f) = *CHUNK_START.read().unwrap() {
+        f(thread_idx);
+    }
+}
